@@ -46,7 +46,7 @@ FSM_RULE = ("Real MotionProcessor fed by a scripted parser; cases: (1) ~330 conf
             "(2) same configs x all strings of length 7 (thorough 10) x one disturbance {window closed, disk check fails, file creation fails, bad frame, reset} at every position; "
             "(3) seeded random scripts (50-2000 events, fps<=9, preview<=5, max<=12s, realistic 3/20 and 10/600 settings) with bad frames, resets and refusals, every fifth one additionally with failing post-trigger WriteFrame calls (5/30/100 %) and failing StopRecording calls (half that rate); (4) trigger-position sweep for cap 1..24.")
 FSM_ASSUME = COMMON_ASSUME + ["the driver aims at motion with a toggling hot pixel, but oracles take the observed MotionDetected callbacks as input"]
-FSM_JOB = {"pkg": "motion", "test": "TestVerif_FSM", "shards": (16, 16), "timeout": (300, 3000), "require": ["recordings", "motion_frames_observed", "post_trigger_write_faults", "stop_faults", "scripts_with_non_increasing_time_on", "scripts_with_non_unique_frame_counter", "scripts_with_ffc_events"]}
+FSM_JOB = {"pkg": "motion", "test": "TestVerif_FSM", "shards": (16, 16), "timeout": (300, 3000), "require": ["recordings", "motion_frames_observed", "post_trigger_write_faults", "stop_faults", "scripts_with_non_increasing_time_on", "scripts_with_non_unique_frame_counter", "scripts_with_ffc_events", "scripts_with_continuous_recorder"]}
 
 TH_RULE = ("Real ThrottledRecorder (NewThrottledRecorderWithClock, fake clock) between a scripted caller and a monitor sink. Cases: (1) seeded random schedules from (Start Write* Stop)* with 5..6000 ops, "
            "bucket 1-60 s (and the shipped 600 s), refill 1 s..1 h, min+preview 1-20 s, fps 1-9, wrapped-start failure rate 0/10/40 %; (2) wrapped start failing at call index 0..11; "
@@ -64,7 +64,8 @@ PROPS = {
         "level_note": "Frame identity is carried in Status.FrameCount by the harness parser; write/stop faults are excluded here by the property's quantifier (C12 covers them).",
         "technique": "offline trace checker on monitor sinks (exhaustive small scope + random scripts)",
         "jobs": [dict(FSM_JOB),
-                 {"pkg": "recorder-main", "test": "TestVerif_C01Pipe", "shards": (8, 16), "timeout": (300, 1800), "require": ["pipeline_connections", "motion_files", "throttled_connections", "test_recordings_overlapping_a_motion_recording"]}],
+                 {"pkg": "recorder-main", "test": "TestVerif_C01Pipe", "shards": (8, 16), "timeout": (300, 1800), "require": ["pipeline_connections", "motion_files", "throttled_connections", "test_recordings_overlapping_a_motion_recording"]},
+                 {"pkg": "throttle", "test": "TestVerif_ThrottleComposition", "shards": (16, 16), "timeout": (300, 2400), "require": ["composition_runs", "base_starts_checked", "mid_trigger_restarts"]}],
     },
     "C02": {
         "title": "Pre-trigger buffering: recordings start a full preview before the trigger",
@@ -76,7 +77,8 @@ PROPS = {
         "level_note": "cap = preview-secs*fps + trigger-frames; the ring is not cleared by resets or bad frames (the property counts accepted frames).",
         "technique": "closed-form trace oracle on monitor sinks (exhaustive small scope + sweeps)",
         "jobs": [dict(FSM_JOB),
-                 {"pkg": "recorder-main", "test": "TestVerif_C01Pipe", "shards": (8, 16), "timeout": (300, 1800), "require": ["pipeline_connections", "motion_files", "throttled_connections", "test_recordings_overlapping_a_motion_recording"]}],
+                 {"pkg": "recorder-main", "test": "TestVerif_C01Pipe", "shards": (8, 16), "timeout": (300, 1800), "require": ["pipeline_connections", "motion_files", "throttled_connections", "test_recordings_overlapping_a_motion_recording"]},
+                 {"pkg": "throttle", "test": "TestVerif_ThrottleComposition", "shards": (16, 16), "timeout": (300, 2400), "require": ["composition_runs", "base_starts_checked", "mid_trigger_restarts"]}],
     },
     "C03": {
         "title": "Recording length: min-secs past the last motion, never more than max-secs",
@@ -101,6 +103,7 @@ PROPS = {
         "jobs": [dict(FSM_JOB, require=FSM_JOB["require"] + ["long_refused_runs"]),
                  {"pkg": "motion", "test": "TestVerif_C04Window", "shards": (8, 16), "timeout": (300, 1800), "require": ["window_runs", "motion_frames_outside_window", "frames_at_exact_boundary", "windows_spanning_midnight", "recordings"]},
                  {"pkg": "recorder-main", "test": "TestVerif_C04Pipe", "shards": (6, 6), "timeout": (300, 900), "require": ["pipeline_gate_runs", "pipeline_motion_files", "runs_with_disk_check_disabled"]},
+                 {"pkg": "recorder-main", "test": "TestVerif_C04Bursts", "shards": (8, 16), "timeout": (300, 1200), "require": ["burst_connections", "bursts_recorded"]},
                  {"pkg": "recorder-main", "test": "TestVerif_C04PipeRetry", "shards": (8, 16), "timeout": (300, 900), "require": ["pipeline_retry_runs"]},
                  {"pkg": "throttle", "test": "TestVerif_ThrottleComposition", "shards": (16, 16), "timeout": (300, 2400), "require": ["composition_runs", "base_starts_checked", "mid_trigger_restarts", "base_start_failures", "runs_with_disk_low_windows"]}],
     },
@@ -115,7 +118,7 @@ PROPS = {
         "technique": "offline interval-bound checker on a timestamped event log (injected clock; production clock with emulated wall-clock steps)",
         "jobs": [dict(TH_JOB, require=TH_JOB["require"] + ["schedules_with_write_failures"]),
                  {"pkg": "throttle", "test": "TestVerif_C05ClockStep", "shards": (8, 16), "timeout": (300, 1800), "require": ["clock_step_runs", "clock_steps_forward", "clock_steps_backward", "runs_with_dry_bucket", "forwarded_writes"]},
-                 {"pkg": "recorder-main", "test": "TestVerif_C05Pipe", "shards": (8, 16), "timeout": (600, 2400), "require": ["pipeline_runs", "frames_recorded_throttled", "throttled_files", "throttle_cut_files", "runs_with_continuous_recorder", "runs_after_a_camera_with_another_fps"]},
+                 {"pkg": "recorder-main", "test": "TestVerif_C05Pipe", "shards": (8, 16), "timeout": (600, 2400), "require": ["pipeline_runs", "frames_recorded_throttled", "throttled_files", "throttle_cut_files", "runs_with_continuous_recorder", "runs_after_a_camera_with_another_fps", "runs_with_default_min_refill"]},
                  {"pkg": "throttle", "test": "TestVerif_ThrottleComposition", "shards": (16, 16), "timeout": (300, 2400), "require": ["composition_runs", "base_starts_checked", "mid_trigger_restarts", "base_start_failures", "runs_with_disk_low_windows"]}],
     },
     "C06": {
@@ -131,8 +134,9 @@ PROPS = {
         "level_note": "min-secs+preview-secs >= 1 (refill > 0) as the property requires.",
         "technique": "online per-operation monitor + pairing automaton on the wrapped recorder",
         "jobs": [dict(TH_JOB),
+                 {"pkg": "throttle", "test": "TestVerif_C06Production", "shards": (8, 16), "timeout": (300, 1200), "require": ["production_constructor_runs", "notifications_checked"]},
                  {"pkg": "recorder-main", "test": "TestVerif_Daemon", "daemon": True, "shards": (1, 1), "timeout": (300, 600)},
-                 {"pkg": "recorder-main", "test": "TestVerif_C05Pipe", "shards": (8, 16), "timeout": (600, 2400), "require": ["pipeline_runs", "throttled_files", "throttle_cut_files", "runs_with_continuous_recorder", "runs_after_a_camera_with_another_fps"]},
+                 {"pkg": "recorder-main", "test": "TestVerif_C05Pipe", "shards": (8, 16), "timeout": (600, 2400), "require": ["pipeline_runs", "throttled_files", "throttle_cut_files", "runs_with_continuous_recorder", "runs_after_a_camera_with_another_fps", "runs_with_default_min_refill"]},
                  {"pkg": "throttle", "test": "TestVerif_ThrottleComposition", "shards": (16, 16), "timeout": (300, 2400), "require": ["composition_runs", "base_starts_checked", "mid_trigger_restarts", "base_start_failures", "runs_with_disk_low_windows"]}],
     },
     "C07": {
@@ -147,7 +151,8 @@ PROPS = {
         "level_note": "Pixel/threshold boundary cases are targeted by the generator, not enumerated.",
         "technique": "reference-model runtime monitor (lock-step differential)",
         "jobs": [{"pkg": "motion", "test": "TestVerif_C07", "shards": (16, 16), "timeout": (300, 2400), "require": ["frames", "motion_frames", "frames_at_count_boundary", "streams_via_processor_api", "streams_via_detect", "blinking_blob_streams", "boson_sized_streams"]},
-                 {"pkg": "motion", "test": "TestVerif_C07Config", "shards": (8, 16), "timeout": (300, 1800), "require": ["configs_loaded", "configs_with_wide_border"]}],
+                 {"pkg": "motion", "test": "TestVerif_C07Config", "shards": (8, 16), "timeout": (300, 1800), "require": ["configs_loaded", "configs_with_wide_border"]},
+                 {"pkg": "recorder-main", "test": "TestVerif_ConfigReread", "shards": (6, 12), "timeout": (300, 1200), "require": ["connections_after_a_thermal_motion_edit"]}],
     },
     "C08": {
         "title": "Edge-border pixels and sub-threshold (cold) pixels never influence detection",
@@ -209,7 +214,9 @@ PROPS = {
         "level_note": "go-cptv and go-config are pinned dependencies and part of the system under observation.",
         "technique": "offline differential checker (decoded output vs reference pipeline)",
         "jobs": [{"pkg": "recorder-main", "test": "TestVerif_C11", "race": True, "shards": (16, 16), "timeout": (600, 3000), "require": ["connections", "frames_compared", "motion_files", "continuous_files", "mode_0_connections", "mode_1_connections", "mode_2_connections", "mode_3_connections", "throttle_resumed_files_checked", "predicted_motion_frames", "connections_after_a_reconnect", "connections_with_a_test_recording"]},
-                 {"pkg": "recorder-main", "test": "TestVerif_C11Warmup", "shards": (8, 16), "timeout": (300, 1200), "require": ["warmup_connections", "warmup_connections_with_limits"]}],
+                 {"pkg": "recorder-main", "test": "TestVerif_C11Warmup", "shards": (8, 16), "timeout": (300, 1200), "require": ["warmup_connections", "warmup_connections_with_limits", "clears_during_warmup"]},
+                 {"pkg": "recorder-main", "test": "TestVerif_ConfigReread", "shards": (6, 12), "timeout": (300, 1200), "require": ["connections_after_a_thermal_motion_edit"]},
+                 {"pkg": "recorder-main", "test": "TestVerif_C01Pipe", "shards": (8, 16), "timeout": (300, 1800), "require": ["pipeline_connections", "motion_files", "throttled_connections"]}],
     },
     "C12": {
         "title": "Sinks see writes only inside start..stop; faults never crash the pipeline",
@@ -223,7 +230,7 @@ PROPS = {
         "level_note": "Enumeration is complete for sequences up to the stated length on the listed configurations; longer histories and fault combinations are sampled. The real CPTVFileRecorder under real I/O faults is exercised by the pipeline job.",
         "technique": "protocol-automaton monitors on injected sinks with exhaustive single-fault placement",
         "jobs": [{"pkg": "motion", "test": "TestVerif_C12", "shards": (16, 16), "timeout": (300, 2400), "require": ["requests_inside_test_start", "single_fault_runs", "recoveries_checked", "random_faults_injected"]},
-                 {"pkg": "recorder-main", "test": "TestVerif_C12Pipe", "shards": (12, 16), "timeout": (300, 1800), "require": ["pipeline_fault_runs", "pipeline_faults_injected"]},
+                 {"pkg": "recorder-main", "test": "TestVerif_C12Pipe", "shards": (12, 16), "timeout": (300, 1800), "require": ["runs_after_the_config_watcher_compared_configs", "pipeline_fault_runs", "pipeline_faults_injected"]},
                  {"pkg": "throttle", "test": "TestVerif_ThrottleComposition", "shards": (16, 16), "timeout": (300, 2400), "require": ["composition_runs", "base_starts_checked", "mid_trigger_restarts", "base_start_failures", "runs_with_disk_low_windows"]}],
     },
     "C13": {
@@ -263,6 +270,7 @@ PROPS = {
             {"pkg": "leptond-main", "test": "TestVerif_C14Agree", "tag": "leptond", "shards": (1, 1), "timeout": (120, 120), "require": ["constant_sets_reported"]},
             {"pkg": "recorder-main", "test": "TestVerif_C14Agree", "tag": "recorder", "shards": (1, 1), "timeout": (120, 120), "require": ["constant_sets_reported"]},
             {"pkg": "recorder-main", "test": "TestVerif_C14Pipe", "race": True, "shards": (16, 16), "timeout": (600, 3000), "require": ["connections_stalled_inside_a_prefix", "clears_with_failing_stop", "connections", "frames_verified_in_storage", "clear_markers", "recordings_ended_by_clear", "motion_files", "bad_frames_in_streams"]},
+            {"pkg": "recorder-main", "test": "TestVerif_C11Warmup", "shards": (8, 16), "timeout": (300, 1200), "require": ["clears_during_warmup"]},
         ],
     },
     "C15": {
@@ -278,7 +286,8 @@ PROPS = {
         "level_note": "The 'recompute after more than preview*fps background updates' schedule is taken from the detector's design; the property fixes only the value.",
         "technique": "invariant monitor on hooked (in-package) state",
         "jobs": [{"pkg": "motion", "test": "TestVerif_C15", "shards": (16, 16), "timeout": (300, 2400), "require": ["boson_sized_streams", "frames", "threshold_recomputations", "reseeds", "recording_starts_checked", "ffc_frames"]},
-                 {"pkg": "throttle", "test": "TestVerif_ThrottleComposition", "shards": (16, 16), "timeout": (300, 2400), "require": ["composition_runs", "base_starts_checked", "mid_trigger_restarts", "base_start_failures", "runs_with_disk_low_windows"]}],
+                 {"pkg": "throttle", "test": "TestVerif_ThrottleComposition", "shards": (16, 16), "timeout": (300, 2400), "require": ["composition_runs", "base_starts_checked", "mid_trigger_restarts", "base_start_failures", "runs_with_disk_low_windows"]},
+                 {"pkg": "recorder-main", "test": "TestVerif_ConfigReread", "shards": (6, 12), "timeout": (300, 1200), "require": ["connections_after_a_thermal_motion_edit"]}],
     },
     "C16": {
         "title": "Snapshots taken concurrently with processing are whole frames; no data races",
@@ -294,7 +303,7 @@ PROPS = {
         "level_note": "A porcupine register model would also demand monotonic reads across requests, which the property does not state; the direct interval check is exactly the property and linear with unique ids.",
         "technique": "Go race detector + interval (freshness) checker over a logical-clock event log",
         "jobs": [{"pkg": "recorder-main", "test": "TestVerif_C16", "race": True, "shards": (6, 16), "gomaxprocs": [1, 2, 4, 16, 16, 3], "timeout": (900, 3000), "hang_is_violation": True,
-                  "require": ["outage_probes", "test_recordings_across_a_bad_frame", "snapshots_checked", "held_snapshots_rechecked", "reconnect_probes", "requests_TakeSnapshot", "requests_TakeTestRecording", "requests_CameraInfo", "motion_recordings_matched", "test_recordings_found"]}],
+                  "require": ["outage_probes", "test_recordings_across_a_bad_frame", "churn_connections", "requests_during_churn", "snapshots_checked", "held_snapshots_rechecked", "reconnect_probes", "requests_TakeSnapshot", "requests_TakeTestRecording", "requests_CameraInfo", "motion_recordings_matched", "test_recordings_found"]}],
     },
     "C17": {
         "title": "Continuous recorder tiles the stream; a test recording is 21 consecutive frames",
@@ -368,16 +377,16 @@ _PENDING = "check under construction in this session; not claimed until its moni
 # natively in the sandbox; no race detector there) over the same case lists, so that conversions and
 # products that only overflow on the production word size are observed too.
 ARCH32 = {
-    "C01": ["TestVerif_FSM", "TestVerif_C01Pipe"], "C02": ["TestVerif_FSM", "TestVerif_C01Pipe"], "C03": ["TestVerif_FSM"],
-    "C04": ["TestVerif_FSM", "TestVerif_C04Window", "TestVerif_C04Pipe"],
+    "C01": ["TestVerif_FSM", "TestVerif_C01Pipe", "TestVerif_ThrottleComposition"], "C02": ["TestVerif_FSM", "TestVerif_C01Pipe", "TestVerif_ThrottleComposition"], "C03": ["TestVerif_FSM"],
+    "C04": ["TestVerif_FSM", "TestVerif_C04Window", "TestVerif_C04Pipe", "TestVerif_C04Bursts"],
     "C05": ["TestVerif_Throttle", "TestVerif_C05ClockStep", "TestVerif_ThrottleComposition"],
-    "C06": ["TestVerif_Throttle", "TestVerif_ThrottleComposition"],
-    "C07": ["TestVerif_C07", "TestVerif_C07Config"], "C08": ["TestVerif_C08"], "C09": ["TestVerif_C09"],
+    "C06": ["TestVerif_Throttle", "TestVerif_ThrottleComposition", "TestVerif_C06Production"],
+    "C07": ["TestVerif_C07", "TestVerif_C07Config", "TestVerif_ConfigReread"], "C08": ["TestVerif_C08"], "C09": ["TestVerif_C09"],
     "C10": ["TestVerif_C10"],
     "C11": ["TestVerif_C11", "TestVerif_C11Warmup"],
     "C12": ["TestVerif_C12", "TestVerif_C12Pipe"],
     "C13": ["TestVerif_C13", "TestVerif_C14Pipe"],
-    "C14": ["TestVerif_C14Pipe"],
+    "C14": ["TestVerif_C14Pipe", "TestVerif_C11Warmup"],
     "C15": ["TestVerif_C15"],
     "C16": ["TestVerif_C16"],
     "C17": ["TestVerif_C17", "TestVerif_C17Pipe"],
